@@ -83,6 +83,7 @@ type world struct {
 	modFirst   bool   // the socket-modifying plugin runs before (true) / after the verdict plugin
 	firstID    string // Session.ID() right after Dial, before any SetID
 	tcpAccepts int    // ws: connections accepted by the harness-owned TCP listener
+	addrReuse  bool   // a later connection got the local address (port) of the first one, see snapshot
 
 	park   map[string]bool
 	byGid  map[int64]*actor
